@@ -1741,6 +1741,8 @@ class Interp:
                 kwargs.update(d)
             else:
                 kwargs[kw.arg] = self.ev(kw.value, env)
+        if models.is_logger_factory(f):
+            return f(*[a if isinstance(a, str) else "x" for a in args])
         if models.is_logging_callable(f):
             self.log_calls += 1
             for a in args[1:]:
